@@ -94,7 +94,12 @@ def sub_ws2d(case, info=None):
             "(n=%d, lam=%r, w=%s): %s vs %s" % (i, n, lam, fmt(w), float(ze[i]), float(zd[i])), "exact identity")
     # oracle 2: float64
     yf, wf = np.array(y), np.array(w)
-    zf = call("ws2d", ws2d, yf, lam_arg, wf)
+    ya, wa = yf, wf
+    if case.get("ydtype"):
+        ya = yf.astype(case["ydtype"])       # integral series handed over in an integer dtype
+    if case.get("wdtype"):
+        wa = wf.astype(case["wdtype"])       # 0/1 masks handed over as bool / uint8 / int
+    zf = call("ws2d", ws2d, ya, lam_arg, wa)
     req(zf.shape == (n,), "ws2d returns shape %s" % (zf.shape,), "ws2d shape")
     zf = np.asarray(zf, dtype=np.float64)
     req(bool(np.isfinite(zf).all()), "ws2d returned non-finite values for n=%d lam=%r w=%s" % (n, lam, fmt(w)), "non-finite")
@@ -156,6 +161,19 @@ def cases(draw, nmax):
     if loglam is None:
         loglam = draw(gens.loglam(-6.0, 8.0))
     case = {"y": y, "w": w, "loglam": loglam, "ycls": ycls, "wcls": wcls}
+    zero_w = [i for i in range(n) if w[i] == 0.0]
+    if zero_w and draw(st.integers(0, 3)) == 0:
+        # what a zero-weight cell holds is irrelevant to the solution: put the fill values rasters really carry there
+        fill = draw(st.sampled_from([1e20, -3.4028234663852886e38, 9.969209968386869e36, -1e15, 1.7976931348623157e308]))
+        y = list(y)
+        for i in (zero_w if draw(st.booleans()) else zero_w[:1]):
+            y[i] = fill
+        case["y"] = y
+        case["wcls"] = wcls = wcls + "+fill"
+    if all(float(v) == int(v) and abs(v) < 2 ** 15 for v in case["y"]) and draw(st.integers(0, 3)) == 0:
+        case["ydtype"] = draw(st.sampled_from(["int16", "int32", "int64", "float32"]))
+    if all(v in (0.0, 1.0) for v in w) and draw(st.integers(0, 3)) == 0:
+        case["wdtype"] = draw(st.sampled_from(["bool", "uint8", "int64", "float32"]))
     lamtype = draw(st.sampled_from(["float"] * 5 + ["int", "npint", "f32"]))
     if lamtype != "float":
         case["lamtype"] = lamtype
@@ -173,7 +191,7 @@ def run(ctx):
         if case.get("lamtype") in ("int", "npint"):
             lam = float(max(1, round(lam)))
         nontrivial = any(v != 1.0 for v in w) or len(w) <= 6 or not (1e-2 <= lam <= 1e3)
-        ctx.rec.case("ws2d", case, nontrivial=nontrivial, cls=["w:" + case["wcls"], "y:" + case["ycls"], "lam:" + case.get("lamtype", "float"),
+        ctx.rec.case("ws2d", case, nontrivial=nontrivial, cls=["w:" + case["wcls"], "y:" + case["ycls"], "lam:" + case.get("lamtype", "float"), "ydtype:" + case.get("ydtype", "float64"), "wdtype:" + case.get("wdtype", "float64"),
                                                                "n<=7" if len(w) <= 7 else "n>7"])
         sub_ws2d(case, info)
         k = info["kappa"]
